@@ -519,3 +519,400 @@ def status_propagated(check, cdb, src, caller, callee, rule="F"):
             if nx.get("kind") in ("ReturnStmt",):
                 break
     return found
+
+
+# ---------------------------------------------------------------------------------------------------------------
+# Narrowing of lengths: a value derived from a size_t parameter (the caller's length, or a counter of loop iterations
+# over it) that is converted to a type of 32 bits or less loses the part above 2^32 - harmless only when the value is
+# bounded by construction (a minimum with something small, a remainder, a masked value, a field of small type).
+_INT_SIZE = {"char": 1, "signed char": 1, "unsigned char": 1, "uint8_t": 1, "int8_t": 1, "short": 2, "unsigned short": 2, "uint16_t": 2, "int16_t": 2,
+             "int": 4, "unsigned": 4, "unsigned int": 4, "uint32_t": 4, "int32_t": 4, "long": 8, "unsigned long": 8, "long long": 8,
+             "unsigned long long": 8, "uint64_t": 8, "int64_t": 8, "size_t": 8, "ssize_t": 8, "uintptr_t": 8, "ptrdiff_t": 8, "sha2_word_t": None,
+             "blake2_word": None, "_Bool": 1}
+
+
+def _tsize(n):
+    t = n.get("type", {})
+    for key in ("desugaredQualType", "qualType"):
+        qt = t.get(key)
+        if not qt:
+            continue
+        qt = qt.replace("const ", "").replace("volatile ", "").strip()
+        if qt in _INT_SIZE and _INT_SIZE[qt] is not None:
+            return _INT_SIZE[qt]
+    return None
+
+
+def _is_cmp(n, ops):
+    return isinstance(n, dict) and n.get("kind") == "BinaryOperator" and n.get("opcode") in ops
+
+
+def _same_expr(a, b):
+    a, b = strip(a), strip(b)
+    if a.get("kind") != b.get("kind"):
+        return False
+    if a.get("kind") == "DeclRefExpr":
+        return ref_name(a) == ref_name(b)
+    if a.get("kind") == "IntegerLiteral":
+        return a.get("value") == b.get("value")
+    ia, ib = a.get("inner", []) or [], b.get("inner", []) or []
+    return a.get("opcode") == b.get("opcode") and a.get("name") == b.get("name") and len(ia) == len(ib) and all(_same_expr(x, y) for x, y in zip(ia, ib))
+
+
+def length_narrowing_sites(fdecl):
+    """[(line, text, reason)] of conversions to <= 32 bits of values derived from a size_t parameter that are not bounded
+    by construction."""
+    body = body_of(fdecl)
+    if body is None:
+        return []
+    tainted = set(n for n, t in params_of(fdecl) if re.search(r"\bsize_t\b", t) and "*" not in t)
+    if not tainted:
+        return []
+    small_locals = set()
+    for n in walk(body):
+        if n.get("kind") == "VarDecl" and (_tsize(n) or 8) <= 4:
+            small_locals.add(n.get("name"))
+
+    def mentions(e, names):
+        return any(x.get("kind") == "DeclRefExpr" and ref_name(x) in names for x in walk(e))
+
+    def bounded(e):
+        """True when the value of e is below 2^32 whatever the tainted inputs are."""
+        e0 = e
+        while isinstance(e, dict) and e.get("kind") in ("ParenExpr", "ConstantExpr") and e.get("inner"):
+            e = e["inner"][-1]
+        k = e.get("kind")
+        if k in ("IntegerLiteral", "CharacterLiteral", "UnaryExprOrTypeTraitExpr"):
+            return True
+        if k in ("ImplicitCastExpr", "CStyleCastExpr"):
+            inner = e["inner"][-1]
+            if (_tsize(inner) or 8) <= 4:
+                return True             # widened from a small type
+            return bounded(inner)
+        if (_tsize(e) or 8) <= 4 and k in ("DeclRefExpr", "MemberExpr", "ArraySubscriptExpr", "CallExpr"):
+            return True
+        if k == "DeclRefExpr":
+            return ref_name(e) not in tainted and ref_name(e) in small_locals
+        if k == "BinaryOperator":
+            op = e.get("opcode")
+            a, b = e["inner"]
+            if op in ("%", "&"):
+                return bounded(b) or bounded(a)
+            if op in ("+", "-", "/", ">>", "|", "^"):
+                return bounded(a) and (bounded(b) or op in ("/", ">>"))
+            if op in ("*", "<<"):
+                return bounded(a) and bounded(b) and not mentions(e, tainted)
+            if op in ("<", "<=", ">", ">=", "==", "!=", "&&", "||"):
+                return True
+        if k == "ConditionalOperator":
+            c, x, y = e["inner"]
+            c = strip(c) if c.get("kind") in ("ParenExpr",) else c
+            while isinstance(c, dict) and c.get("kind") in ("ParenExpr", "ImplicitCastExpr") and c.get("inner"):
+                c = c["inner"][-1]
+            if _is_cmp(c, ("<", "<=", ">", ">=")):
+                l, r = c["inner"]
+                is_min = (c["opcode"] in ("<", "<=") and _same_expr(l, x) and _same_expr(r, y)) or \
+                         (c["opcode"] in (">", ">=") and _same_expr(l, y) and _same_expr(r, x))
+                if is_min:
+                    return bounded(x) or bounded(y)
+            return bounded(x) and bounded(y)
+        if k == "UnaryOperator" and e.get("opcode") in ("!",):
+            return True
+        return False
+    # counters of iterations of loops that run over a tainted length are themselves unbounded
+    changed = True
+    while changed:
+        changed = False
+        for n in walk(body):
+            tgt, src = None, None
+            if n.get("kind") == "VarDecl" and n.get("inner"):
+                tgt, src = n.get("name"), n["inner"][-1]
+            elif n.get("kind") == "BinaryOperator" and n.get("opcode") in ("=", "+=", "*=", "<<="):
+                tgt, src = ref_name(n["inner"][0]), n["inner"][1]
+            if tgt and tgt not in tainted and tgt not in small_locals and src is not None and mentions(src, tainted) and not bounded(src):
+                tainted.add(tgt)
+                changed = True
+        for loop in walk(body):
+            if loop.get("kind") in ("WhileStmt", "ForStmt", "DoStmt") and mentions(loop, tainted):
+                cond_t = any(mentions(c, tainted) for c in loop.get("inner", [])[:-1] if isinstance(c, dict)) or loop.get("kind") != "ForStmt"
+                if not cond_t:
+                    continue
+                for n in walk(loop):
+                    v = None
+                    if n.get("kind") == "UnaryOperator" and n.get("opcode") in ("++",):
+                        v = ref_name(n["inner"][0])
+                    elif n.get("kind") == "CompoundAssignOperator" and n.get("opcode") in ("+=",):
+                        v = ref_name(n["inner"][0])
+                    if v and v not in tainted and v not in small_locals:
+                        tainted.add(v)
+                        changed = True
+    out = []
+    for n in walk(body):
+        if n.get("kind") in ("ImplicitCastExpr", "CStyleCastExpr") and n.get("castKind") == "IntegralCast":
+            inner = n["inner"][-1]
+            ts, ss = _tsize(n), _tsize(inner)
+            if ts is None or ss is None or ts >= ss or ss < 8:
+                continue
+            if not mentions(inner, tainted) or bounded(inner):
+                continue
+            out.append((n.get("range", {}).get("begin", {}).get("line") or inner.get("range", {}).get("begin", {}).get("line"), inner, ts))
+    return out
+
+
+def short_counter_loops(fdecl):
+    """[(line, counter, bound text)]: loops whose condition compares a counter of 32 bits or less with a value derived
+    from a size_t parameter (not bounded by construction) while the loop increments that counter: for a length of
+    2^32 or more the counter wraps before it reaches the bound and the loop never ends."""
+    body = body_of(fdecl)
+    if body is None:
+        return []
+    tainted = set(n for n, t in params_of(fdecl) if re.search(r"\bsize_t\b", t) and "*" not in t)
+    if not tainted:
+        return []
+    small = {}
+    for n in walk(fdecl):
+        if n.get("kind") in ("VarDecl",) and (_tsize(n) or 8) <= 4:
+            small[n.get("name")] = _tsize(n)
+    # simple propagation: x = <expr with tainted, 64-bit typed>
+    changed = True
+    while changed:
+        changed = False
+        for n in walk(body):
+            tgt, src = None, None
+            if n.get("kind") == "VarDecl" and n.get("inner") and n.get("name") not in small:
+                tgt, src = n.get("name"), n["inner"][-1]
+            elif n.get("kind") == "BinaryOperator" and n.get("opcode") == "=":
+                tgt, src = ref_name(n["inner"][0]), n["inner"][1]
+            if tgt and tgt not in tainted and tgt not in small and src is not None and \
+                    any(x.get("kind") == "DeclRefExpr" and ref_name(x) in tainted for x in walk(src)):
+                # a remainder / mask / minimum bounds the value
+                s2 = strip(src)
+                if s2.get("kind") == "BinaryOperator" and s2.get("opcode") in ("%", "&"):
+                    continue
+                tainted.add(tgt)
+                changed = True
+    out = []
+    for loop in walk(body):
+        if loop.get("kind") not in ("ForStmt", "WhileStmt", "DoStmt"):
+            continue
+        parts = loop.get("inner", [])
+        conds = [c for c in parts[:-1] if isinstance(c, dict) and c.get("kind")] if loop.get("kind") == "ForStmt" else \
+            ([parts[0]] if loop.get("kind") == "WhileStmt" else [parts[-1]])
+        for c in conds:
+            for cmp_ in walk(c):
+                if not _is_cmp(cmp_, ("<", "<=", "!=", ">", ">=")):
+                    continue
+                l, r = cmp_["inner"]
+                for cnt, bound in ((l, r), (r, l)):
+                    name = ref_name(cnt)
+                    if name not in small:
+                        continue
+                    b = strip(bound)
+                    if (_tsize(bound) or 0) < 8 and (_tsize(b) or 0) < 8:
+                        continue
+                    if not any(x.get("kind") == "DeclRefExpr" and ref_name(x) in tainted for x in walk(bound)):
+                        continue
+                    if b.get("kind") == "BinaryOperator" and b.get("opcode") in ("%", "&"):
+                        continue
+                    incremented = any((x.get("kind") == "UnaryOperator" and x.get("opcode") in ("++", "--") and ref_name(x["inner"][0]) == name) or
+                                      (x.get("kind") == "CompoundAssignOperator" and ref_name(x["inner"][0]) == name) for x in walk(loop))
+                    if incremented:
+                        out.append((cmp_.get("range", {}).get("begin", {}).get("line") or loop.get("range", {}).get("begin", {}).get("line"), name,
+                                    sorted(set(ref_name(x) for x in walk(bound) if x.get("kind") == "DeclRefExpr" and ref_name(x) in tainted))))
+    return out
+
+
+STREAMING = re.compile(r"(_encrypt|_decrypt|_update|_absorb|_squeeze|_transcrypt|_digest)$|^ghash_|^strxor|^Salsa20_8_core$")
+
+
+def _parents(root):
+    par = {}
+    todo = [root]
+    while todo:
+        n = todo.pop()
+        for ch in n.get("inner", []) or []:
+            if isinstance(ch, dict):
+                par[id(ch)] = n
+                todo.append(ch)
+    return par
+
+
+def _unwrap(c):
+    while isinstance(c, dict) and c.get("kind") in ("ParenExpr", "ImplicitCastExpr") and c.get("inner"):
+        c = c["inner"][-1]
+    return c
+
+
+def _small_at(fdecl, par, site, names, tainted):
+    """Is one of the length variables in `names` known to be small at `site`?  (a) the site lies inside
+    `if (v < K)`; (b) it comes, in the same block, after `if (v >= K) { ...; continue/return/break; }`; (c) it comes
+    after a loop `for/while (..; v >= K; ..) { .. v -= K .. }` - in each case K does not depend on the length."""
+    def indep(k):
+        return not any(x.get("kind") == "DeclRefExpr" and ref_name(x) in tainted for x in walk(k))
+    n = site
+    while id(n) in par:
+        p = par[id(n)]
+        kids = [c for c in p.get("inner", []) if isinstance(c, dict)]
+        if p.get("kind") == "IfStmt" and len(kids) >= 2 and n is kids[1]:
+            c = _unwrap(kids[0])
+            if _is_cmp(c, ("<", "<=")) and ref_name(c["inner"][0]) in names and indep(c["inner"][1]):
+                return True
+            if _is_cmp(c, (">", ">=")) and ref_name(c["inner"][1]) in names and indep(c["inner"][0]):
+                return True
+        if p.get("kind") == "CompoundStmt":
+            idx = [k for k, c in enumerate(kids) if c is n][0]
+            for prev in kids[:idx]:
+                if prev.get("kind") == "IfStmt":
+                    pk = [c for c in prev.get("inner", []) if isinstance(c, dict)]
+                    c = _unwrap(pk[0]) if pk else {}
+                    if len(pk) >= 2 and _is_cmp(c, (">=", ">")) and ref_name(c["inner"][0]) in names and indep(c["inner"][1]):
+                        then = pk[1]
+                        last = (then.get("inner") or [then])[-1] if then.get("kind") == "CompoundStmt" else then
+                        if isinstance(last, dict) and last.get("kind") in ("ContinueStmt", "ReturnStmt", "BreakStmt"):
+                            return True
+                if prev.get("kind") in ("ForStmt", "WhileStmt"):
+                    pk = [c for c in prev.get("inner", []) if isinstance(c, dict) and c.get("kind")]
+                    for c in pk[:-1]:
+                        c = _unwrap(c)
+                        if _is_cmp(c, (">=", ">")) and ref_name(c["inner"][0]) in names and indep(c["inner"][1]) and \
+                                any(x.get("kind") == "CompoundAssignOperator" and x.get("opcode") == "-=" and ref_name(x["inner"][0]) in names for x in walk(prev)):
+                            return True
+        n = p
+    return False
+
+
+def streaming_length_sites(fdecl):
+    """Findings of the streaming-length rule in one function: [(description)]."""
+    body = body_of(fdecl)
+    if body is None:
+        return []
+    tainted = set(n for n, t in params_of(fdecl) if re.search(r"\bsize_t\b", t) and "*" not in t)
+    if not tainted:
+        return []
+    par = _parents(fdecl)
+    small_locals = set(n.get("name") for n in walk(fdecl) if n.get("kind") == "VarDecl" and (_tsize(n) or 8) <= 4)
+
+    def dep(e):
+        return any(x.get("kind") == "DeclRefExpr" and ref_name(x) in tainted for x in walk(e))
+
+    def grows(e):
+        """Does the value of e grow without bound with the caller's length?"""
+        e = _unwrap(e)
+        if not dep(e):
+            return False
+        k = e.get("kind")
+        if k == "CStyleCastExpr":
+            return grows(e["inner"][-1])
+        if k == "BinaryOperator":
+            op = e.get("opcode")
+            a, b = e["inner"]
+            if op in ("%", "&"):
+                return grows(a) and grows(b)
+            if op in ("<", "<=", ">", ">=", "==", "!=", "&&", "||"):
+                return False
+            return grows(a) or grows(b)
+        if k == "ConditionalOperator":
+            c, x, y = e["inner"]
+            c = _unwrap(c)
+            if _is_cmp(c, ("<", "<=", ">", ">=")):
+                l, r = c["inner"]
+                is_min = (c["opcode"] in ("<", "<=") and _same_expr(l, x) and _same_expr(r, y)) or \
+                         (c["opcode"] in (">", ">=") and _same_expr(l, y) and _same_expr(r, x))
+                if is_min:
+                    return grows(x) and grows(y)
+            return grows(x) or grows(y)
+        return True
+    # propagate: a 64-bit local that receives a growing value grows too; counters incremented in loops over the length grow
+    changed = True
+    while changed:
+        changed = False
+        for n in walk(body):
+            tgt, src = None, None
+            if n.get("kind") == "VarDecl" and n.get("inner"):
+                tgt, src = n.get("name"), n["inner"][-1]
+            elif n.get("kind") == "BinaryOperator" and n.get("opcode") == "=":
+                tgt, src = ref_name(n["inner"][0]), n["inner"][1]
+            elif n.get("kind") == "CompoundAssignOperator" and n.get("opcode") in ("+=", "*=", "<<="):
+                tgt, src = ref_name(n["inner"][0]), n["inner"][1]
+            if tgt and tgt not in tainted and tgt not in small_locals and src is not None and grows(src):
+                tainted.add(tgt)
+                changed = True
+        for loop in walk(body):
+            if loop.get("kind") in ("WhileStmt", "ForStmt", "DoStmt"):
+                kids = [c for c in loop.get("inner", []) if isinstance(c, dict) and c.get("kind")]
+                conds = kids[:-1] if loop.get("kind") != "DoStmt" else kids[-1:]
+                if not any(dep(c) for c in conds):
+                    continue
+                for n in walk(loop):
+                    v = None
+                    if n.get("kind") == "UnaryOperator" and n.get("opcode") == "++":
+                        v = ref_name(n["inner"][0])
+                    if v and v not in tainted and v not in small_locals:
+                        tainted.add(v)
+                        changed = True
+    out = []
+    # (1) 32-bit loop counters against a growing bound
+    for loop in walk(body):
+        if loop.get("kind") not in ("ForStmt", "WhileStmt", "DoStmt"):
+            continue
+        kids = [c for c in loop.get("inner", []) if isinstance(c, dict) and c.get("kind")]
+        conds = kids[:-1] if loop.get("kind") != "DoStmt" else kids[-1:]
+        for c in conds:
+            for cmp_ in walk(c):
+                if not _is_cmp(cmp_, ("<", "<=", "!=", ">", ">=")):
+                    continue
+                l, r = cmp_["inner"]
+                for cnt, bound in ((l, r), (r, l)):
+                    name = ref_name(cnt)
+                    if name not in small_locals or not grows(bound):
+                        continue
+                    if not any((x.get("kind") == "UnaryOperator" and x.get("opcode") in ("++", "--") and ref_name(x["inner"][0]) == name) or
+                               (x.get("kind") == "CompoundAssignOperator" and ref_name(x["inner"][0]) == name) for x in walk(loop)):
+                        continue
+                    names = set(ref_name(x) for x in walk(bound) if x.get("kind") == "DeclRefExpr" and ref_name(x) in tainted)
+                    if _small_at(fdecl, par, loop, names, tainted):
+                        continue
+                    out.append("the 32-bit loop counter `%s` runs against `%s`, which grows with the caller's length" % (name, ", ".join(sorted(names))))
+    # (2) conversions of a growing value to 32 bits or less
+    for n in walk(body):
+        if n.get("kind") in ("ImplicitCastExpr", "CStyleCastExpr") and n.get("castKind") == "IntegralCast":
+            inner = n["inner"][-1]
+            ts, ss = _tsize(n), _tsize(inner)
+            if ts is None or ss is None or ts >= ss or ss < 8 or not grows(inner):
+                continue
+            names = set(ref_name(x) for x in walk(inner) if x.get("kind") == "DeclRefExpr" and ref_name(x) in tainted)
+            if _small_at(fdecl, par, n, names, tainted):
+                continue
+            out.append("a value that grows with the caller's length (%s) is converted to %d bits" % (", ".join(sorted(names)), 8 * ts))
+    return sorted(set(out))
+
+
+def streaming_length_rule(check, cdb, rule="M", only_tus=None):
+    """Every exported streaming entry point (the functions that receive the caller's data length as a size_t): no loop
+    counter of 32 bits or less runs against a value that grows with that length, and no such value is converted to 32
+    bits or less - unless it is small at that point (minimum with something that does not depend on the length,
+    remainder, inside `if (len < K)`, after `if (len >= K) {..; continue;}`, after the block loop).  For a request of
+    4 GiB or more such a loop never ends / the count is truncated."""
+    F = cdb.functions()
+    n = 0
+    for name, fl in sorted(F.items()):
+        if not STREAMING.search(name):
+            continue
+        for f in fl:
+            if f.linkage != "external":
+                continue
+            base = f.tu.src.split("/")[-1]
+            if only_tus is not None and base not in only_tus:
+                continue
+            try:
+                fd = cdb.func_ast(f.tu, name)
+            except AnalysisError:
+                continue
+            if not any(re.search(r"\bsize_t\b", t) and "*" not in t for _, t in params_of(fd)):
+                continue
+            n += 1
+            bad = streaming_length_sites(fd)
+            check.ob(rule, "%s|c|length|%s|%s" % (rule, base, name), not bad, f.tu.src, 0,
+                     extracted="; ".join(bad[:3]) if bad else "no 32-bit counter or conversion meets a value that grows with the caller's length",
+                     expected="a request of 4 GiB or more is processed like any other (or refused): no 32-bit loop counter against the size_t length, no truncation of a length-derived value")
+    return n
